@@ -346,7 +346,6 @@ def d3_int_normalised(ctx, ff):
     preceded by the rebinding `p = int(p)`.  Converting only the results computes in double precision, which is
     wrong above 2**53.  Taint walk in source order; `%` and comparisons (the validation) are not arithmetic here."""
     params = [p for p in ('totallen', 'chunklen', 'steplen') if p in ff.params]
-    T = set(params)
     bad = []
     narith = [0]
 
@@ -365,7 +364,7 @@ def d3_int_normalised(ctx, ff):
         walk(e)
         return out
 
-    def scan_expr(e):
+    def scan_expr(e, T):
         if e is None:
             return
         for x in ast.walk(e):
@@ -375,34 +374,39 @@ def d3_int_normalised(ctx, ff):
                 if hit:
                     bad.append((x, sorted(hit)))
 
-    def visit(stmts, top):
+    def visit(stmts, T):
+        """Flow-sensitive over statement lists: returns the taint set after the block, or None when the block always
+        leaves the function (return / raise)."""
+        T = set(T)
         for st in stmts:
             if isinstance(st, ast.If):
-                visit(st.body, False)
-                visit(st.orelse, False)
+                tb, te = visit(st.body, T), visit(st.orelse, T)
+                if tb is None and te is None:
+                    return None
+                T = (tb or set()) | (te or set())
             elif isinstance(st, (ast.Assign, ast.AnnAssign, ast.AugAssign)):
                 v = st.value
-                scan_expr(v)
+                scan_expr(v, T)
+                tainted = bool(v is not None and names_outside_int(v) & T)
                 tg = st.targets if isinstance(st, ast.Assign) else [st.target]
                 for t in tg:
                     for nm in ([t] if isinstance(t, ast.Name) else [x for x in ast.walk(t) if isinstance(x, ast.Name)]):
-                        if isinstance(st, ast.AugAssign):
-                            if names_outside_int(v) & T:
-                                T.add(nm.id)
-                        elif names_outside_int(v) & T:
+                        if tainted:
                             T.add(nm.id)
-                        elif top:
+                        elif not isinstance(st, ast.AugAssign):
                             T.discard(nm.id)
             elif isinstance(st, ast.Return):
-                scan_expr(st.value)
+                scan_expr(st.value, T)
+                return None
+            elif isinstance(st, ast.Raise):
+                return None
             elif isinstance(st, ast.Expr):
-                scan_expr(st.value)
+                scan_expr(st.value, T)
             elif isinstance(st, (ast.For, ast.While, ast.With, ast.Try)):
-                for x in ast.walk(st):
-                    if isinstance(x, ast.expr):
-                        pass
-                visit(getattr(st, 'body', []), False)
-    visit(ff.node.body, True)
+                t2 = visit(getattr(st, 'body', []), T)
+                T = T | (t2 or set())
+        return T
+    visit(ff.node.body, set(params))
     seen = set()
     bad = [(x, h) for x, h in bad if not any(x is not y and any(z is x for z in ast.walk(y)) for y, _ in bad)]
     if bad:
